@@ -858,6 +858,8 @@ class TypeEnv:
                     out.append(c.methods[f.attr])
             if out:
                 return [('byname', f.attr)] + out
+            if f.attr in BUILTIN_METHOD_NAMES:
+                return [('builtin', f'?.{f.attr}')]
             return [('unknown', f.attr)]
         return [('unknown', ast.unparse(f))]
 
@@ -886,6 +888,20 @@ class TypeEnv:
                             if isinstance(s, FuncInfo):
                                 out.append(s)
         return out
+
+
+BUILTIN_METHOD_NAMES = {
+    # str
+    'split', 'rsplit', 'splitlines', 'strip', 'lstrip', 'rstrip', 'join', 'format', 'encode', 'decode', 'upper',
+    'lower', 'title', 'capitalize', 'startswith', 'endswith', 'replace', 'ljust', 'rjust', 'zfill', 'isdigit',
+    'isalpha', 'isidentifier', 'find', 'partition', 'casefold', 'removeprefix', 'removesuffix',
+    # containers
+    'append', 'extend', 'insert', 'pop', 'remove', 'clear', 'sort', 'reverse', 'update', 'add', 'discard',
+    'setdefault', 'popitem', 'copy', 'count', 'index', 'get', 'keys', 'values', 'items', 'union', 'intersection',
+    'difference', 'issubset', 'issuperset', 'isdisjoint',
+    # misc
+    'hexdigest', 'digest', 'read', 'write', 'close', 'group', 'groups',
+}
 
 
 def iter_own_nodes(fn_node: ast.AST) -> Iterable[ast.AST]:
